@@ -41,13 +41,19 @@ func (discardConn) SetReadDeadline(time.Time) error              { return nil }
 func (discardConn) SetWriteDeadline(time.Time) error             { return nil }
 
 func newNodeCore() *nodeCore {
+	c := newNodeCoreNoSync()
+	c.syn.VSync(gossiperAdapter{c.gs})
+	return c
+}
+
+// newNodeCoreNoSync: the same node before the syncer has been started.
+func newNodeCoreNoSync() *nodeCore {
 	c := &nodeCore{ups: map[string]*fakeUpstream{}}
 	c.cs = cluster.NewState(&cluster.Node{ID: "local", ProxyAddr: "p-local", AdminAddr: "a-local"}, log.NewNopLogger())
 	c.syn = sgossip.VNewSyncer(c.cs)
 	c.fd = gossip.VNewAccrualFD(time.Second, 50)
 	m := gossip.VNewMetrics()
 	c.gs = gossip.VNewClusterState("local", "10.0.0.1:7000", c.fd, m, c.syn)
-	c.syn.VSync(gossiperAdapter{c.gs})
 	c.mgr = upstream.NewLoadBalancedManager(c.cs, nil)
 	c.pl = gossip.VNewPacketListener(discardConn{}, c.gs, c.fd, 1400, m)
 	return c
